@@ -220,6 +220,7 @@ def run_cut_loop(ex, stmt, st, key, lc, guard_fn, bind_fn, advance_fn, label):
           else:
               branches = ex.decide(head, g)
           for s_g, b in branches:
+            s_g.ghost['__loops_reached__'] = s_g.ghost.get('__loops_reached__', frozenset()) | {(ex.fn, str(key))}
             if b:
                 s_g.trace.append('loop%s:iter' % key)
                 for s_b in bind_fn(s_g):
